@@ -21,6 +21,7 @@ def describe(ck):
     ck.rule("R05a", "every subscript of a table of <= 256 entries whose index is computed from a plain char is, for "
                     "all 256 byte values not excluded by the dominating guards, inside the table")
     ck.rule("R05b", "the residue-code loop assigns msa_seq.s[j] on every path, from the alphabet table")
+    ck.rule("R05c", "every constructor sets every field of its struct that is read anywhere (or a verified later phase does, before any reader); sibling constructors agree; allocated character buffers are written")
     ck.rule("R05d", "every call whose callee can fail because of the input has its status consumed (RUN/RUNP/test/return); main returns EXIT_FAILURE after ERROR")
     ck.rule("R05e", "a local pointer that is NULL-tested somewhere is not dereferenced on a path from a NULL definition without assignment or test")
     ck.rule("R05g", "no path in the call graph from an API function to exit/abort")
@@ -335,6 +336,7 @@ def run(ck, progs):
         n = r05a(ck, prog)
         ck.floor("R05a", n, 12, "char-indexed small-table subscripts")
         r05b(ck, prog)
+        r05c(ck, prog)
         r05d(ck, prog)
         n = r05e(ck, prog)
         ck.floor("R05e", n, 20, "NULL-tested local pointers")
@@ -1081,3 +1083,158 @@ def r05l(ck, prog, functions=None):
                                      c.callee, repr(ln), ttxt, repr(lst[0][0].scale(lst[0][1]))), prog.config)
     ck.info("R05l", "%d heap accesses decided by affine comparison, %d left undecided (symbolic parts do not cancel)" % (decided, undecided))
     return decided
+
+
+# --------------------------------------------------------------------------- R05c
+# fields that a constructor leaves unset because a mandatory later phase defines them before any read;
+# each entry is *verified* (a write of the field dominates every call that can reach a reader), not trusted
+PHASE_FIELDS = {
+    ("aln_mem", "starta_2"): "set by aln_runner / aln_runner_serial for the backward half before the backward kernel is called",
+    ("aln_mem", "enda_2"): "set by aln_runner / aln_runner_serial for the backward half before the backward kernel is called",
+    ("msa", "run_parallel"): "set by create_msa_tree before the tree recursion that copies it into each aln_mem",
+}
+# char buffers a constructor allocates without writing: slots that only become live through code that writes them
+STRING_SLOTS = {
+    ("alloc_msa_seq", "name"): "pre-allocated record slots become live only in the readers, each of which writes the name (R06b)",
+    ("alloc_msa_seq", "seq"): "pre-allocated residue buffer; readers append and null_terminate_sequences terminates it",
+}
+
+
+def constructors(prog):
+    out = {}
+    for F in prog.lib_functions():
+        for c in F.body.calls("malloc"):
+            for x in c.args[0].walk():
+                if x.k == "UnaryExprOrTypeTraitExpr" and x.d.get("of", "").startswith("struct ") and not x.d["of"].endswith("*") \
+                        and c.args[0].cv == x.cv:
+                    par = c.up(casts=True)[0]
+                    if par is not None and par.k == "BinaryOperator" and par.d["op"] == "=":
+                        tgt = par.kids[0].strip()
+                        out.setdefault(x.d["of"].split()[1], []).append((F, tgt, c))
+    return out
+
+
+def field_readers(prog):
+    reads = {}
+    for F in prog.lib_functions():
+        for m in F.body.find("MemberExpr"):
+            if access_mode(m) in ("read", "rmw", "elem-read", "elem-rmw", "decay"):
+                reads.setdefault((m.d.get("rec"), m.d["field"]), set()).add(F.name)
+    return reads
+
+
+def r05c(ck, prog):
+    from ..effects import Effects
+    from ..callgraph import CallGraph
+    E = Effects(prog)
+    cg = CallGraph(prog)
+    ctors = constructors(prog)
+    reads = field_readers(prog)
+    n = 0
+    written_by = {}
+    for T, lst in sorted(ctors.items()):
+        rec = prog.records.get(T)
+        if rec is None:
+            continue
+        for F, tgt, call in lst:
+            if tgt.k != "DeclRefExpr":
+                continue
+            n += 1
+            S = E.of_stmt(F, F.body, {tgt.d["did"]: ()})
+            written = {p[0] for p in S.writes if p}
+            pwritten = {p[0] for p in S.pwrites if p}
+            written_by.setdefault(T, {})[F.name] = written
+            where = site(prog, call, "new %s" % T)
+            missing = [f["name"] for f in rec["fields"] if f["name"] not in written and (T, f["name"]) in reads]
+            ck.inst("R05c", where, "%s constructs struct %s: writes %d of %d fields; read-but-unset: %s" % (
+                F.name, T, len(written & {f["name"] for f in rec["fields"]}), len(rec["fields"]), missing or "none"), prog.config)
+            for f in missing:
+                if (T, f) in PHASE_FIELDS:
+                    bad = _phase_check(prog, cg, T, f, reads[(T, f)])
+                    if bad:
+                        ck.violation("R05c", "R05c/%s/%s" % (F.name, f), where,
+                                     "field %s.%s is left unset by %s and %s reaches its reader %s without a dominating write" % (
+                                         T, f, F.name, bad[0], bad[1]), prog.config)
+                    else:
+                        ck.info("R05c", "%s.%s unset in %s: %s (verified: a write dominates every call reaching a reader)" % (
+                            T, f, F.name, PHASE_FIELDS[(T, f)]))
+                else:
+                    ck.violation("R05c", "R05c/%s/%s" % (F.name, f), where,
+                                 "%s allocates a struct %s but never sets %s, which %s read(s): uninitialised memory (leftover heap "
+                                 "of earlier calls) reaches the computation" % (F.name, T, f, sorted(reads[(T, f)])[:3]), prog.config)
+            # char buffers allocated here but not written here, although string consumers read them
+            for f in rec["fields"]:
+                if f["ty"].replace("const ", "") != "char *" or f["name"] not in written:
+                    continue
+                allocs_here = any(m.d.get("field") == f["name"] and m.d.get("rec") == T and access_mode(m) == "write" and
+                                  any(x.k == "CallExpr" and x.callee == "malloc" for x in m.up()[0].walk())
+                                  for m in F.body.find("MemberExpr"))
+                if not allocs_here:
+                    continue
+                if f["name"] in pwritten:
+                    continue
+                if (F.name, f["name"]) in STRING_SLOTS:
+                    ck.info("R05c", "%s allocates %s.%s without writing it: %s" % (F.name, T, f["name"], STRING_SLOTS[(F.name, f["name"])]))
+                    continue
+                ck.violation("R05c", "R05c/%s/%s-contents" % (F.name, f["name"]), where,
+                             "%s allocates the character buffer %s.%s but never writes it; string consumers (%s) read whatever "
+                             "the heap holds" % (F.name, T, f["name"], sorted(reads.get((T, f["name"]), []))[:3]), prog.config)
+    # siblings: constructors of one type initialise the same fields
+    for T, m in written_by.items():
+        if len(m) < 2:
+            continue
+        allf = {f["name"] for f in prog.records[T]["fields"]}
+        names = sorted(m)
+        ref = m[names[0]] & allf
+        for other in names[1:]:
+            d = (m[other] & allf) ^ ref
+            d = {f for f in d if (T, f) in reads}
+            ck.inst("R05c", "struct %s" % T, "sibling constructors %s / %s differ on read fields: %s" % (names[0], other, sorted(d) or "none"), prog.config)
+            if d:
+                ck.violation("R05c", "R05c/%s/siblings-%s" % (other, T), "struct %s" % T,
+                             "%s and %s both construct struct %s but do not initialise the same fields (%s differ)" % (
+                                 names[0], other, T, sorted(d)), prog.config)
+    ck.floor("R05c", n, 12, "constructors")
+
+
+def _phase_check(prog, cg, T, f, reader_fns):
+    """for every call site of a (transitive) reader of T.f from a function that is not itself a reader-reaching
+    recursion member: a store to T.f must dominate the call.  Returns (caller, reader) of the first failure."""
+    readers = set(reader_fns)
+    # functions that can reach a reader
+    reach_reader = set()
+    for g in cg.defined:
+        if set(cg.reachable({g})) & readers:
+            reach_reader.add(g)
+    writers = set()
+    for G in prog.lib_functions():
+        for m in G.body.find("MemberExpr"):
+            if m.d.get("rec") == T and m.d["field"] == f and access_mode(m) in ("write",):
+                writers.add(G.name)
+    for name in sorted(writers):
+        G = cg.defined.get(name)
+        if G is None:
+            continue
+        cfg = G.cfg
+        wpos = [cfg.position(m) for m in G.body.find("MemberExpr")
+                if m.d.get("rec") == T and m.d["field"] == f and access_mode(m) == "write"]
+        wpos = [x for x in wpos if x is not None]
+        for c in G.body.calls():
+            if c.callee in readers or (c.callee in reach_reader and c.callee not in writers):
+                cp = cfg.position(c)
+                if cp is not None and cfg.reaches(None, cp, avoid=wpos):
+                    return (name, c.callee)
+    # a reader reachable from a root that never passes a writer
+    api = api_functions(prog)
+    for root in api:
+        seen = set()
+        st = [root]
+        while st:
+            g = st.pop()
+            if g in seen or g in writers:
+                continue
+            seen.add(g)
+            if g in readers:
+                return (root, g)
+            st.extend(cg.edges.get(g, ()))
+    return None
